@@ -133,14 +133,28 @@ func c02Gen(rt *rapid.T) c02Case {
 	}
 	c.Admit = rapid.Bool().Draw(rt, "admit")
 	c.SlowLog = rapid.IntRange(0, 2).Draw(rt, "slowlog") == 0
+	// sometimes a long minimum gap for empty blocks and one build whose mempool holds only
+	// txs that cannot be included: the builder may then return no block, but never an empty
+	// block inside the gap (the verifier refuses it)
+	allBad := -1
+	if rapid.IntRange(0, 5).Draw(rt, "emptygapmode") == 0 {
+		c.Rules.MinEmptyBlockGap = 3_600_000
+		allBad = rapid.IntRange(0, nb-1).Draw(rt, "allbad")
+	}
 	total := 0
 	for b := 0; b < nb; b++ {
 		n := rapid.IntRange(0, 10).Draw(rt, fmt.Sprintf("n%d", b))
+		if b == allBad && n == 0 {
+			n = 1
+		}
 		var arr []c02Tx
 		for i := 0; i < n; i++ {
 			lbl := fmt.Sprintf("b%dt%d.", b, i)
 			t := c02Tx{RepeatOf: -1, Kind: "valid"}
 			kind := rapid.IntRange(0, 19).Draw(rt, lbl+"kind")
+			if b == allBad {
+				kind = 3 + kind%5
+			}
 			if kind <= 2 && total > 0 {
 				t.RepeatOf = rapid.IntRange(0, total-1).Draw(rt, lbl+"repeatOf")
 				t.Kind = "repeat"
@@ -282,6 +296,9 @@ func c02Run(c c02Case, st *vstat.Stats) error {
 		if berr != nil {
 			if errors.Is(berr, chain.ErrNoTxs) || errors.Is(berr, chain.ErrTimestampTooEarly) {
 				labels["build:"+"no-block"] = true
+				if len(txs) > 0 && l.rules.MinEmptyBlockGap > 1 {
+					labels["no-block-inside-empty-gap-with-nonempty-mempool"] = true
+				}
 			} else {
 				labels["build:error"] = true
 			}
